@@ -33,21 +33,23 @@ func (m MessageCertificateVerify) Type() Type {
 
 // Marshal encodes the Handshake.
 func (m *MessageCertificateVerify) Marshal() ([]byte, error) {
-	if m.HashAlgorithm > 0xFF || m.SignatureAlgorithm > 0xFF {
-		return nil, dtlserrors.ErrInvalidSignHashAlgorithm
+	// CertificateVerify in DTLS 1.2 encodes hash/signature as 1 byte each; a
+	// DTLS 1.3 RSA-PSS scheme is the full 16-bit signature scheme value.
+	scheme := tls.SignatureScheme(m.SignatureAlgorithm)
+	if !m.SignatureAlgorithm.IsPSS() {
+		if m.HashAlgorithm > 0xFF || m.SignatureAlgorithm > 0xFF {
+			return nil, dtlserrors.ErrInvalidSignHashAlgorithm
+		}
+		scheme = tls.SignatureScheme(uint16(m.HashAlgorithm)<<8 | uint16(m.SignatureAlgorithm))
 	}
-
-	// CertificateVerify in DTLS 1.2 encodes hash/signature as 1 byte each.
-	scheme := tls.SignatureScheme(uint16(m.HashAlgorithm)<<8 | uint16(m.SignatureAlgorithm))
 	var alg signaturehash.Algorithm
-	if err := alg.Unmarshal(scheme); err != nil {
+	if err := alg.Unmarshal(scheme); err != nil || alg.Hash != m.HashAlgorithm {
 		return nil, dtlserrors.ErrInvalidSignHashAlgorithm
 	}
 
 	out := make([]byte, 1+1+2+len(m.Signature))
 
-	out[0] = byte(m.HashAlgorithm)
-	out[1] = byte(m.SignatureAlgorithm)
+	copy(out, alg.Marshal())
 	binary.BigEndian.PutUint16(out[2:], uint16(len(m.Signature))) //nolint:gosec // G115
 	copy(out[4:], m.Signature)
 
